@@ -120,6 +120,8 @@ def judge(ctx, s, exp, impl, model, origin):
 
 def run(ctx):
     rng = ctx.rng
+    if ctx.replay and "expr_hex" not in json.load(open(ctx.replay)).get("case", {}):
+        ctx.replay = None       # a theorem/correspondence replay names no input: the whole check is the replay
     ctx.gen_consts(["hostlist"])
     ctx.lean_build([PROPS, "pdshmodel"])
     ctx.audit(PROPS)
